@@ -70,7 +70,11 @@ def id_style_map(style):
             y = "a" + " " * n + "b.c"
         elif style in ("numeric", "words", "xpath", "url"):     # ids that look like numbers, keywords / tag names, path expressions
             pool = {"numeric": NUMERIC_IDS, "words": WORD_IDS, "xpath": XPATH_IDS, "url": URL_IDS}[style]
+            if style == "url" and x.startswith("sch."):           # schema names are where URLs really occur: the odd ones go there
+                pool = pool[2:8] + pool[:2] + pool[8:]
             y = pool[n - 1] if n <= len(pool) else "%s#%d" % (pool[n % len(pool)], n)
+            if y in cache.values():
+                y = "%s#%d" % (y, n)
         elif style == "verylong":      # ids of 300+ characters that differ only at the very end
             y = "V" * 300 + "%03d" % n
         elif style == "unicode":       # pairs that differ only by Unicode normalisation; characters outside the BMP
@@ -169,14 +173,17 @@ class Gamma:
             return "<roEdStart>%s2020-01-01T%02d:30:00%s</roEdStart>" % (pad[0], 10 + k, pad[1])
         if tag in ("item", "storyItem"):
             idpart = "<itemID/>" if nid == NONE else "<itemID>%s</itemID>" % escape(nid)
+            omitted = False
             body = [idpart, "<itemSlug>%s</itemSlug>" % escape(self.text(r)), self.marker(tok)]
-            if nid == NONE and r.random() < 0.3:          # an item without any itemID element has no id either
+            if nid == NONE and r.random() < (0.6 if tag == "storyItem" else 0.3):     # no itemID element at all: no id either
                 body = body[1:]
+                omitted = True
             if r.random() < 0.5:
                 body.append("<objID>%s</objID>" % escape(self.text(r)))
             if r.random() < 0.5:
                 body.append("<mosID>%s</mosID>" % escape(self.text(r)))
-            body += self.rich_children(r, 2)
+            # (a look-alike <itemID> child would BE the id of an item that has no itemID of its own)
+            body += [c for c in self.rich_children(r, 2) if not (omitted and c.startswith("<itemID"))]
             tail = escape("after %s" % tok) if tok.startswith("xt:") else ""       # character data after the item
             return "<%s>%s</%s>%s" % (tag, self.join(body, 3), tag, tail)
         if tag == "mosExternalMetadata":
